@@ -11,7 +11,9 @@ Definition lin_fuel : nat := 50000.
 Definition isa_outer : nat := 2000.
 Definition isa_inner : nat := 2000.
 
-Definition runner := list Z -> list string -> obs * hstats.
+(* a runner also returns the highest heap address written during the run (Sem/*Sem hw) *)
+Definition runner := list Z -> list string -> obs * hstats * Z.
+Definition touched_blocks (base high : Z) : Z := if Z.ltb high base then 0%Z else ((high - base) / 64 + 1)%Z.
 
 Definition entry_is_integer (p : prog) : bool :=
   match pdefs p with d :: _ => forallb (fun b => match bchi b with Ext => true | _ => false end) (dctx d) | [] => false end.
@@ -31,7 +33,7 @@ Definition heap_one (base : Z) (p : prog) (run_s : runner) (run_m : unit -> opti
         let '(w, b, pk, fr) := judge base args st in
         Some {| r_viol := w; r_bounds := b; r_peak := pk; r_front := fr; r_events := events st; r_deferred := deferred st; r_marked := marked |} in
       let tr := trace_linear lin_fuel p args in
-      let '(ob1, st1) := run_s args tr in
+      let '(ob1, st1, _) := run_s args tr in
       if obs_eqb ref ob1 && in_lockstep st1 then pack false st1
       else match first_violation st1 with
            | Some _ =>
@@ -40,7 +42,7 @@ Definition heap_one (base : Z) (p : prog) (run_s : runner) (run_m : unit -> opti
                if negb (underrun st1) then pack false st1 else None
            | None =>
                match run_m tt with
-               | Some run_m => let '(ob2, st2) := run_m args [] in if obs_eqb ref ob2 then pack true st2 else None
+               | Some run_m => let '(ob2, st2, _) := run_m args [] in if obs_eqb ref ob2 then pack true st2 else None
                | None => None
                end
            end
@@ -81,29 +83,50 @@ Definition heap_verdict (base : Z) (p : prog) (run_s : runner) (run_m : unit -> 
   | None => VOk (heap_summary results hard_tag ++ extra_tags)
   end.
 
-(* ---------- C10: space independent of the number of repetitions (as Model/RunX86.c10_x86_case) ---------- *)
+(* ---------- C10: space independent of the number of repetitions (as Model/RunX86.c10_x86_case) ----------
+   `main(n)` repeats a round n times.  Compared for n = 8 and n = 32: the allocation frontier (first
+   never-used block, from inv_check at the last boundary) and, independently of the invariant, the
+   number of blocks ever written (high-water mark of the ISA model): a leak shows up as growth of the
+   latter even though every result is right.  A violation of the invariant at a boundary reached in
+   lockstep is reported as well (class=heap-invariant, property C09). *)
+Definition run4 := (list Z * obs * obs * hstats * Z)%type.
 Definition c10_verdict (base : Z) (p : prog) (run_s : runner) (argss : list (list Z)) : verdict :=
-  let runs := map (fun args =>
-                     let ref := run_linear lin_fuel p args in
-                     let tr := trace_linear lin_fuel p args in
-                     let '(ob, st) := run_s args tr in
-                     (args, ref, ob, st)) argss in
-  match find (fun x : list Z * obs * obs * hstats => let '(_, _, _, st) := x in match first_violation st with Some _ => negb (underrun st) | None => false end) runs with
-  | Some (args, _, _, st) =>
-      VViol ("class=heap-invariant args=" ++ show (sL sZ args) ++ " at boundary " ++ n_to_string (boundaries st) ++ ": "
-             ++ match first_violation st with Some w => w | None => "" end)
+  let runs : list run4 :=
+    map (fun args =>
+           let ref := run_linear lin_fuel p args in
+           let tr := trace_linear lin_fuel p args in
+           let '(ob, st, high) := run_s args tr in
+           (args, ref, ob, st, high)) argss in
+  let inv : option string :=
+    match find (fun x : run4 => let '(_, _, _, st, _) := x in match first_violation st with Some _ => negb (underrun st) | None => false end) runs with
+    | Some (args, _, _, st, _) =>
+        Some ("class=heap-invariant args=" ++ show (sL sZ args) ++ " at boundary " ++ n_to_string (boundaries st) ++ ": "
+              ++ match first_violation st with Some w => w | None => "" end)
+    | None => None
+    end in
+  match find (fun x : run4 => let '(_, ref, ob, _, _) := x in negb (obs_eqb ref ob && defined ref)) runs with
+  | Some (args, ref, ob, _, _) =>
+      match inv with
+      | Some w => VViol w
+      | None => VSkip ("runs not comparable for args " ++ show (sL sZ args) ++ ": " ++ show (s_obs ref) ++ " vs " ++ show (s_obs ob))
+      end
   | None =>
-      match find (fun x : list Z * obs * obs * hstats => let '(_, ref, ob, st) := x in negb (obs_eqb ref ob && defined ref && in_lockstep st)) runs with
-      | Some (args, ref, ob, _) =>
-          VSkip ("runs not comparable for args " ++ show (sL sZ args) ++ ": " ++ show (s_obs ref) ++ " vs " ++ show (s_obs ob))
-      | None =>
-          let fronts := map (fun x : list Z * obs * obs * hstats => let '(_, _, _, st) := x in ((last_frontier st - base) / 64)%Z) runs in
-          let ev := fold_left (fun a (x : list Z * obs * obs * hstats) => let '(_, _, _, st) := x in (a + events st)%N) runs 0%N in
-          match fronts with
-          | [f2; f8; f32] =>
-              if Z.eqb f8 f32 then VOk ("nt frontier" ++ z_to_string f32 ++ " first" ++ z_to_string f2 ++ (if N.eqb ev 0 then "" else " hard"))
-              else VViol ("class=heap-footprint-grows frontier after 2/8/32 iterations: " ++ z_to_string f2 ++ "/" ++ z_to_string f8 ++ "/" ++ z_to_string f32 ++ " blocks")
-          | _ => VBad "expected three iteration counts"
-          end
+      let touched := map (fun x : run4 => let '(_, _, _, _, high) := x in touched_blocks base high) runs in
+      let fronts := map (fun x : run4 => let '(_, _, _, st, _) := x in ((last_frontier st - base) / 64)%Z) runs in
+      let ev := fold_left (fun a (x : run4) => let '(_, _, _, st, _) := x in (a + events st)%N) runs 0%N in
+      let steady := forallb (fun x : run4 => let '(_, _, _, st, _) := x in in_lockstep st) runs in
+      match touched, fronts with
+      | [t2; t8; t32], [f2; f8; f32] =>
+          if negb (Z.eqb t8 t32) then
+            VViol ("class=heap-footprint-grows blocks written after 2/8/32 iterations: " ++ z_to_string t2 ++ "/" ++ z_to_string t8 ++ "/" ++ z_to_string t32
+                   ++ match inv with Some w => "; " ++ w | None => "" end)
+          else match inv with
+               | Some w => VViol w
+               | None =>
+                   if negb steady then VSkip "statement marks and machine trace not in lockstep"
+                   else if Z.eqb f8 f32 then VOk ("nt frontier" ++ z_to_string f32 ++ " first" ++ z_to_string f2 ++ " written" ++ z_to_string t32 ++ (if N.eqb ev 0 then "" else " hard"))
+                   else VViol ("class=heap-footprint-grows frontier after 2/8/32 iterations: " ++ z_to_string f2 ++ "/" ++ z_to_string f8 ++ "/" ++ z_to_string f32 ++ " blocks")
+               end
+      | _, _ => VBad "expected three iteration counts"
       end
   end.
